@@ -133,7 +133,13 @@ func (ps *pipeStreams) replay(chunks []int, readBuf int, cutAt int, cutErr error
 					k++
 				}
 				before := len(sc.Out)
-				wn, werr := conn.Write(ps.b[wpos : wpos+n])
+				// the caller owns its buffer again as soon as Write returns (io.Writer:
+				// "Write must not retain p"): hand over a scratch copy and scribble on it
+				scratch := append([]byte(nil), ps.b[wpos:wpos+n]...)
+				wn, werr := conn.Write(scratch)
+				for i := range scratch {
+					scratch[i] = 0xAA
+				}
 				if wn < 0 || wn > n {
 					pr.writeBad = fmt.Sprintf("Write returned n=%d for %d bytes", wn, n)
 				}
